@@ -210,30 +210,38 @@ struct Impl {
     if (c.fs.master) { d.m_data[0] = 0x10; d.m_data[1] = 0x08; d.m_data[2] = 0xb5; d.m_data[3] = 0x09; }
     d.m_data[off - 1] = static_cast<symbol_t>(n);
     for (int i = 0; i < n; i++) d.m_data[off + i] = raw[i];
-    os.str("");
-    os.clear();
-    // "not on other fields formatted before on the same output": the stream is handed over in the state other fields
-    // leave it in - fixed notation with two fraction digits (a fixed-point field) and hex base with fill '0' (a HEX
-    // field), in turn with a pristine stream - so that a decoder which relies on the stream's state shows a wrong text
-    // here (C12 explores which states are reachable and compares every type against its pristine output)
-    if ((calls & 1) == 0) {
-      os.flags(std::ios::dec | std::ios::skipws);
-      os.precision(6);
-      os.fill(' ');
-    } else {
-      os.flags(std::ios::hex | std::ios::fixed | std::ios::skipws);
-      os.precision(2);
-      os.fill('0');
+    // "not on other fields formatted before on the same output": every pattern is decoded twice - on a pristine
+    // stream and on a stream in the state other fields leave it in (fixed notation with two fraction digits as after a
+    // fixed-point field, hex base with fill '0' as after a HEX field).  When the two differ, the history dependent
+    // result is the one handed to the judge (C12 explores which states are reachable and compares all types).
+    string o1, o2;
+    int r1 = 0, r2 = 0;
+    for (int pass = 0; pass < 2; pass++) {
+      os.str("");
+      os.clear();
+      if (pass == 0) {
+        os.flags(std::ios::dec | std::ios::skipws);
+        os.precision(6);
+        os.fill(' ');
+      } else {
+        os.flags(std::ios::hex | std::ios::fixed | std::ios::skipws);
+        os.precision(2);
+        os.fill('0');
+      }
+      os.width(0);
+      calls++;
+      result_t r = c.field->read(d, 0, false, nullptr, -1, fmtFlags(fmt), -1, &os);
+      (pass == 0 ? o1 : o2) = os.str();
+      (pass == 0 ? r1 : r2) = static_cast<int>(r);
     }
-    os.width(0);
-    calls++;
-    result_t r = c.field->read(d, 0, false, nullptr, -1, fmtFlags(fmt), -1, &os);
-    *out = os.str();
+    bool same = r1 == r2 && o1 == o2;
+    *out = same ? o1 : o2;
+    int r = same ? r1 : r2;
     if (fmtIsJson(fmt) && r == RESULT_OK) {
       if (out->compare(0, 4, "\"0\":") == 0) out->erase(0, 4);
       else *out = "<json-frame-missing>" + *out;
     }
-    return static_cast<int>(r);
+    return r;
   }
 
   // encode a text through DataField::write into an empty symbol string
